@@ -283,7 +283,7 @@ Lemma install_tasks_ess : forall o s retain inuse,
 Proof.
   intros. unfold install_tasks, ess_pre.
   rewrite !filter_app, filter_map_kinds.
-  destruct (mem (orev o) (seq s)), (installed s), (is_revert o); simpl;
+  destruct (mem (orev o) (seq s)), (installed s), (is_revert o), (ofromstore o); simpl;
     try rewrite filter_app; try rewrite filter_ess_gc; simpl; rewrite ?app_nil_r; reflexivity.
 Qed.
 
@@ -637,8 +637,8 @@ Qed.
 
 (* ------------------------------------------------------------------------------------------------ witnesses *)
 
-Definition mk_refresh (r hook now : N) : op := mkOp ORefresh r false 0 false false false false false 0 false hook now.
-Definition mk_revert (r : N) (nbk : bool) (now : N) : op := mkOp ORevert r false 0 false false false false false 0 nbk 0 now.
+Definition mk_refresh (r hook now : N) : op := mkOp ORefresh r false 0 false false false false false 0 false hook now true.
+Definition mk_revert (r : N) (nbk : bool) (now : N) : op := mkOp ORevert r false 0 false false false false false 0 nbk 0 now true.
 
 (* kept [1,2,3], current 1 after a not-blocking revert from 3: RevertStatus = {3: NotBlocked}, Block() = [2] *)
 Definition s_reverted : st := mkSt [1;2;3] 1 true 1 false false false false false 0 3 0 [3] 5 [(3,5)] [1;2;3] 1.
